@@ -6,8 +6,8 @@
    Len/Get/Set), GV.StrLib.TabSpec (manual §6.6); GV.StrLib.Sort.
    str_ok s  = "len s < maxint" (representation invariant of a Go string);
    in64/oin64 = the (optional) argument is an int64.  No other bounds. *)
-From Coq Require Import ZArith List Permutation.
-From GV Require Import StrLib.Str StrLib.StrSpec StrLib.StrProofs StrLib.StrProofs2 StrLib.Tab StrLib.TabSpec StrLib.TabProofs StrLib.TabProofs2 StrLib.Sort StrLib.SortOrder.
+From Coq Require Import ZArith List Bool Permutation.
+From GV Require Import StrLib.Str StrLib.StrSpec StrLib.StrProofs StrLib.StrProofs2 StrLib.Tab StrLib.TabSpec StrLib.TabProofs StrLib.TabProofs2 StrLib.Sort StrLib.SortOrder StrLib.SortExample.
 Import ListNotations.
 Open Scope Z_scope.
 
@@ -180,9 +180,18 @@ Print Assumptions C19_sort_refines_list.
 (* hence: if sort.Sort is a correct comparison sort, a consistent comparison
    leaves the table ordered ("not comp(t[j], t[i]) for i < j") *)
 Theorem C19_sort_sorted_if_consistent :
-  forall algo, (forall n, in_range n (algo n)) ->
-  (forall lt l, consistent lt -> sorted lt (run_list (algo (length l)) lt l)) ->
-  forall n lt m, consistent lt ->
+  forall algo n, in_range n (algo n) ->
+  (forall lt l, length l = n -> consistent lt -> sorted lt (run_list (algo n) lt l)) ->
+  forall lt m, consistent lt ->
   sorted lt (elems (fst (sort_im algo n (fun _ x y => Some (lt x y)) m)) n).
 Proof. exact sort_sorted_if_consistent. Qed.
 Print Assumptions C19_sort_sorted_if_consistent.
+
+(* its hypotheses are satisfiable by a real procedure (bubble sort; lengths 2
+   and 3, every consistent comparison, every list) *)
+Theorem C19_sort_hypotheses_satisfiable :
+  exists algo, (forall n, in_range n (algo n)) /\
+    (forall lt l, length l = 2%nat -> consistent lt -> sorted lt (run_list (algo 2%nat) lt l)) /\
+    (forall lt l, length l = 3%nat -> consistent lt -> sorted lt (run_list (algo 3%nat) lt l)).
+Proof. exact sort_order_hypotheses_satisfiable. Qed.
+Print Assumptions C19_sort_hypotheses_satisfiable.
